@@ -636,8 +636,8 @@ uint64_t ipow(uint64_t b, int e) {
 }
 
 // "plain": forms(3) x normals{none,per-vertex} x colours{none,rgb,rgba} x lists
-void add_plain_space(mc::Runner &R, int F, int vs, bool quick, bool thorough) {
-  const uint64_t nt = ipow(4, 3 * F);
+void add_plain_space(mc::Runner &R, int F, int ids, int vs, bool quick, bool thorough) {
+  const uint64_t nt = ipow(ids, 3 * F);
   auto decode = [=](uint64_t idx) {
     Case c;
     c.vs = vs;
@@ -647,11 +647,11 @@ void add_plain_space(mc::Runner &R, int F, int vs, bool quick, bool thorough) {
     idx /= 2;
     c.cm = idx % 3;
     idx /= 3;
-    decode_faces(idx, F, 4, &c);
+    decode_faces(idx, F, ids, &c);
     return c;
   };
   mc::Space sp;
-  sp.name = "mesh_plain_F" + std::to_string(F) + "_vs" + std::to_string(vs);
+  sp.name = "mesh_plain_F" + std::to_string(F) + "_ids" + std::to_string(ids) + "_vs" + std::to_string(vs);
   sp.size = 18 * nt;
   sp.quick = quick;
   sp.thorough = thorough;
@@ -1061,14 +1061,18 @@ int main(int argc, char **argv) {
   R.assumptions = {
       "F <= 2 faces over 4 vertex ids, N <= 3 points; F = 0 / N = 0 excluded (the encoders refuse empty geometries)",
       "positions float32x3, normals float32x3, tex-coords float32x2, colours uint8x3/x4 - what draco's own writers emit",
-      "plain configurations run over all 8 value sets and 3 mesh forms; seam configurations: thorough = lists over 4 ids, "
+      "plain configurations run over all 8 value sets and 3 mesh forms (quick: F = 2 lists over 3 ids); seam configurations: thorough = lists over 4 ids, "
       "builder form x value sets {0,3,6} and raw form x value set 0; quick = lists over 3 ids, builder form, value set 0",
       "OBJ point clouds are compared as sets: ObjDecoder deduplicates points by design",
       "tool part: fixed list of 24 files, -qp 0 -qt 0 -qn 0, -cl in {0,7,10}"};
   R.transition_counters = {"obj_roundtrips", "ply_roundtrips", "stl_roundtrips", "tool_process_spawns"};
 
-  for (int vs = 0; vs < 8; ++vs)
-    for (int F = 1; F <= 2; ++F) add_plain_space(R, F, vs, true, true);
+  // plain: all 8 value sets; F = 2 over 4 ids in thorough, over 3 ids in quick
+  for (int vs = 0; vs < 8; ++vs) {
+    add_plain_space(R, 1, 4, vs, true, true);
+    add_plain_space(R, 2, 3, vs, true, false);
+    add_plain_space(R, 2, 4, vs, false, true);
+  }
   // quick: lists over 3 ids, value set 0, deduplicated (builder) form - the
   // form with shared value entries, i.e. non-trivial v/vt/vn index triplets
   for (int F = 1; F <= 2; ++F) add_seam_space(R, F, 3, 0, kBuilder, true, false);
